@@ -288,9 +288,10 @@ class World:
         self.other_changed = set()
         return 'F:sp-pickle'
 
-    def unpicklable_commit(self):
+    def unpicklable_commit(self, explicit=False):
         """Commit that fails while the connection serialises its objects: a new object X refers to another new
-        object Y and, after it, holds a value that cannot be pickled."""
+        object Y and, after it, holds a value that cannot be pickled.  explicit: X is handed to the connection with
+        add() (not linked from anywhere), and an existing object is modified after that."""
         names = []
         obs = []
         for _ in range(2):
@@ -301,7 +302,11 @@ class World:
         X, Y = obs
         X.child = Y
         X.bad = (lambda: 0)
-        self.root[names[0]] = X
+        if explicit:
+            self.c.add(X)
+            self.modify(0)
+        else:
+            self.root[names[0]] = X
         self.obj[names[0]] = X
         self.obj[names[1]] = Y
         try:
@@ -309,7 +314,10 @@ class World:
             fail('commit of an object that cannot be pickled succeeded')
         except Exception:
             pass
-        self.tm.abort()
+        try:
+            self.tm.abort()
+        except Exception as ex:
+            fail('abort after a failed commit raised', type(ex).__name__, str(ex)[:120])
         del X.bad
         del X.child
         self.work = dict(self.committed)
@@ -319,7 +327,7 @@ class World:
         self.explicit = set()
         self.sps = []
         self.other_changed = set()
-        return 'F:pickle'
+        return 'F:pickle-add' if explicit else 'F:pickle'
 
     def readd_disowned(self, where):
         """Every object that was new in a transaction that did not commit belongs to no database - and can be added
